@@ -14,6 +14,10 @@ import (
 	"fmt"
 	"math"
 	"reflect"
+	"runtime"
+	"sync"
+	"sync/atomic"
+	"time"
 
 	tally "github.com/uber-go/tally/v4"
 	"github.com/uber-go/tally/v4/m3"
@@ -36,7 +40,7 @@ type c16Metric struct {
 	Tags  []c16Tag `json:"tags"` // null = nil slice (field absent), [] = empty list
 }
 type c16Op struct {
-	Op         string      `json:"op"` // metric | batch | emit | prebuilt
+	Op         string      `json:"op"` // metric | batch | emit | prebuilt | concurrent
 	M          *c16Metric  `json:"m,omitempty"`
 	Metrics    []c16Metric `json:"metrics,omitempty"`
 	NilMetrics bool        `json:"nil_metrics,omitempty"` // Metrics is a nil slice instead of an empty one
@@ -48,6 +52,11 @@ type c16Op struct {
 	TagMap map[B]B `json:"tagmap,omitempty"`
 	V      int64   `json:"v,omitempty"`
 	Ts     int64   `json:"ts,omitempty"`
+	// concurrent: G goroutines released together each allocate N counters / gauges / timers /
+	// histograms (derived from CSeed) on the one real reporter of this protocol
+	G     int    `json:"g,omitempty"`
+	N     int    `json:"n,omitempty"`
+	CSeed uint64 `json:"cseed,omitempty"`
 }
 type c16Case struct {
 	Proto  int     `json:"proto"` // 0 compact, 1 binary
@@ -170,6 +179,15 @@ func c16Gen(r *Rng, i int, thorough bool) c16Case {
 	maxMetrics := 60
 	if thorough {
 		maxMetrics = 500
+	}
+	// fixed positions allocate concurrently on the real reporter (followed by single-goroutine
+	// allocations on the same reporter)
+	if pos := i % 150; pos >= 12 && pos < 18 {
+		c.Ops = append(c.Ops, c16Op{Op: "concurrent", G: []int{2, 3, 4, 8, 8, 16}[pos-12], N: 300, CSeed: r.U64()})
+		for k := 0; k < 2; k++ {
+			c.Ops = append(c.Ops, c16Op{Op: "prebuilt", Kind: 1 + r.Intn(3), Name: c16Str(r, 0), V: 7, Ts: 1700000000000000000})
+		}
+		return c
 	}
 	nops := 1 + r.Intn(4)
 	// a few fixed positions carry one long string: beyond the two-byte varint length (Compact)
@@ -381,6 +399,12 @@ func c16Prebuilt(proto int, op *c16Op) (m m3thrift.Metric, size int32, err error
 	if v.Kind() != reflect.Struct || !v.FieldByName("metric").IsValid() || !v.FieldByName("size").IsValid() {
 		return m, 0, fmt.Errorf("unexpected handle type %T", h)
 	}
+	m, size = c16ReadCached(v)
+	return m, size, nil
+}
+
+// c16ReadCached reads (metric, size) out of a cachedMetric struct value.
+func c16ReadCached(v reflect.Value) (m m3thrift.Metric, size int32) {
 	mv := v.FieldByName("metric")
 	size = int32(v.FieldByName("size").Int())
 	val := mv.FieldByName("Value")
@@ -397,7 +421,135 @@ func c16Prebuilt(proto int, op *c16Op) (m m3thrift.Metric, size int32, err error
 			m.Tags[i] = m3thrift.MetricTag{Name: tv.Index(i).FieldByName("Name").String(), Value: tv.Index(i).FieldByName("Value").String()}
 		}
 	}
-	return m, size, nil
+	return m, size
+}
+
+// one measured structure: the metric exactly as calculateSize saw it, and the size recorded for it
+type c16Measured struct {
+	m    m3thrift.Metric
+	size int32
+	what string
+}
+
+// c16ReadHandle turns an Allocate* result into the structures the reporter measured:
+// a counter/gauge/timer handle is one; a histogram is one per bucket, measured (as process()
+// sends it) with the bucket id and bucket tags appended to the metric's own tags.
+func c16ReadHandle(h interface{}, what string) ([]c16Measured, error) {
+	v := reflect.ValueOf(h)
+	if v.Kind() != reflect.Struct {
+		return nil, fmt.Errorf("unexpected handle type %T", h)
+	}
+	if v.FieldByName("metric").IsValid() && v.FieldByName("size").IsValid() {
+		m, size := c16ReadCached(v)
+		return []c16Measured{{m, size, what}}, nil
+	}
+	rv := v.FieldByName("r")
+	if !rv.IsValid() || rv.Kind() != reflect.Ptr || !v.FieldByName("cachedValueBuckets").IsValid() {
+		return nil, fmt.Errorf("unexpected handle type %T", h)
+	}
+	idName, bName := rv.Elem().FieldByName("bucketIDTagName"), rv.Elem().FieldByName("bucketTagName")
+	if !idName.IsValid() || !bName.IsValid() {
+		return nil, fmt.Errorf("reporter has no bucket tag names")
+	}
+	var out []c16Measured
+	for _, f := range []string{"cachedValueBuckets", "cachedDurationBuckets"} {
+		bs := v.FieldByName(f)
+		for i := 0; i < bs.Len(); i++ {
+			b := bs.Index(i)
+			cm := b.FieldByName("metric")
+			if !cm.IsValid() || cm.Kind() != reflect.Ptr || cm.IsNil() {
+				return nil, fmt.Errorf("unexpected histogram bucket layout")
+			}
+			m, size := c16ReadCached(cm.Elem())
+			tags := append([]m3thrift.MetricTag{}, m.Tags...)
+			m.Tags = append(tags,
+				m3thrift.MetricTag{Name: idName.String(), Value: b.FieldByName("bucketID").String()},
+				m3thrift.MetricTag{Name: bName.String(), Value: b.FieldByName("bucket").String()})
+			out = append(out, c16Measured{m, size, fmt.Sprintf("%s bucket %d", what, i)})
+		}
+	}
+	return out, nil
+}
+
+// c16Concurrent: G goroutines, released together by a spin barrier, each allocate N metrics on
+// the one reporter; returns everything the reporter measured, in (goroutine, allocation) order.
+func c16Concurrent(proto int, op *c16Op) ([]c16Measured, error) {
+	r, err := c16Reporter(proto)
+	if err != nil {
+		return nil, err
+	}
+	g, n := op.G, op.N
+	if g < 1 {
+		g = 1
+	}
+	handles := make([][]interface{}, g)
+	whats := make([][]string, g)
+	var ready int32
+	var wg sync.WaitGroup
+	for gi := 0; gi < g; gi++ {
+		wg.Add(1)
+		go func(gi int) {
+			defer wg.Done()
+			rg := NewRng(op.CSeed + uint64(gi)*1000003)
+			type spec struct {
+				kind int
+				name string
+				tags map[string]string
+				b    tally.Buckets
+			}
+			specs := make([]spec, n)
+			for i := range specs {
+				sp := spec{kind: 1 + rg.Intn(5), name: fmt.Sprintf("c%d.%d.%s", gi, i, alphaSmall[rg.Intn(4)])}
+				if nt := rg.Intn(7); nt > 0 {
+					sp.tags = map[string]string{}
+					for k := 0; k < nt; k++ {
+						sp.tags[fmt.Sprintf("k%d", rg.Intn(12))] = fmt.Sprintf("v%d", rg.Intn(1<<uint(rg.Intn(20))))
+					}
+				}
+				switch sp.kind {
+				case 4:
+					sp.b = tally.ValueBuckets{0, 1.5, float64(2 + rg.Intn(1000))}[:1+rg.Intn(3)]
+				case 5:
+					sp.b = tally.DurationBuckets{0, time.Millisecond, time.Duration(2+rg.Intn(1000)) * time.Second}[:1+rg.Intn(3)]
+				}
+				specs[i] = sp
+			}
+			hs := make([]interface{}, 0, n)
+			ws := make([]string, 0, n)
+			atomic.AddInt32(&ready, 1)
+			for spins := 0; atomic.LoadInt32(&ready) < int32(g); spins++ {
+				if spins%1024 == 1023 {
+					runtime.Gosched()
+				}
+			}
+			for i, sp := range specs {
+				switch sp.kind {
+				case 1:
+					hs = append(hs, r.AllocateCounter(sp.name, sp.tags))
+				case 2:
+					hs = append(hs, r.AllocateGauge(sp.name, sp.tags))
+				case 3:
+					hs = append(hs, r.AllocateTimer(sp.name, sp.tags))
+				default:
+					hs = append(hs, r.AllocateHistogram(sp.name, sp.tags, sp.b))
+				}
+				ws = append(ws, fmt.Sprintf("goroutine %d allocation %d (%s)", gi, i, []string{"", "counter", "gauge", "timer", "value histogram", "duration histogram"}[sp.kind]))
+			}
+			handles[gi], whats[gi] = hs, ws
+		}(gi)
+	}
+	wg.Wait()
+	var out []c16Measured
+	for gi := range handles {
+		for i, h := range handles[gi] {
+			ms, err := c16ReadHandle(h, whats[gi][i])
+			if err != nil {
+				return nil, err
+			}
+			out = append(out, ms...)
+		}
+	}
+	return out, nil
 }
 
 type c16Obs struct {
@@ -561,6 +713,43 @@ func c16Run(c *c16Case) (in, obs []Ev, seen []c16Obs, fails [][2]string, skipped
 			}
 			in = append(in, c16MetricEv(5, &pm, []int64{op.V, op.Ts}, ef))
 			obs = append(obs, Ev{K: 5, I: []int64{int64(rsize), int64(o.Calc)}, S: []string{string(o.Bytes)}})
+		case "concurrent":
+			ms, err := c16Concurrent(c.Proto, op)
+			if err != nil {
+				skipped = err.Error()
+				continue
+			}
+			// every recorded size against the real encoder (and a fresh calculator); a bounded,
+			// evenly spread sample plus the first disagreements go through the model
+			step := len(ms)/40 + 1
+			bad := 0
+			for i := range ms {
+				x := &ms[i]
+				wbuf.Reset()
+				calc.ResetCount()
+				x.m.Write(wp)
+				x.m.Write(cp)
+				enc := append([]byte{}, wbuf.Bytes()...)
+				ok := int(x.size) == len(enc) && calc.GetCount() == x.size
+				if !ok {
+					bad++
+					if bad <= 3 {
+						fail("calc_equals_encoded_length", fmt.Sprintf("op %d: %d goroutines allocating concurrently: %s: reporter recorded %d bytes for %s, the encoder writes %d bytes (a fresh calculator counts %d)",
+							oi, op.G, x.what, x.size, c16Show(&x.m), len(enc), calc.GetCount()))
+					}
+				}
+				if i%step == 0 || (!ok && bad <= 8) {
+					in = append(in, c16MetricEv(6, &x.m, nil, 0))
+					obs = append(obs, Ev{K: 6, I: []int64{int64(x.size)}, S: []string{string(enc)}})
+				}
+			}
+			if bad > 3 {
+				fail("calc_equals_encoded_length", fmt.Sprintf("op %d: %d of %d sizes recorded under concurrent allocation disagree with the encoder", oi, bad, len(ms)))
+			}
+			seen = append(seen, c16Obs{Op: fmt.Sprintf("concurrent: %d structures measured, %d disagree", len(ms), bad)})
+			wbuf.Reset()
+			calc.ResetCount()
+			continue
 		default:
 			continue
 		}
@@ -589,7 +778,7 @@ func c16Term(idx int, c *c16Case, in, obs []Ev) string {
 func init() {
 	props["C16"] = func(ctx *Ctx) {
 		ctx.Header("ThriftCorr")
-		ctx.Res.Rule = "case = (protocol, state the reused protocol objects are left in beforehand, trailing bytes, sequence of Metric.Write / MetricBatch.Write / EmitMetricBatchV2 / pre-built reporter metrics); generated from the seed; non-trivial = at least one operation that wrote a string or a list; distinct by case hash"
+		ctx.Res.Rule = "case = (protocol, state the reused protocol objects are left in beforehand, trailing bytes, sequence of Metric.Write / MetricBatch.Write / EmitMetricBatchV2 / pre-built reporter metrics / concurrent allocation by 2..16 goroutines on the real reporter); generated from the seed; non-trivial = at least one operation that wrote a string or a list; distinct by case hash"
 		skippedNote := false
 		one := func(c *c16Case) {
 			in, obs, seen, fails, skipped := c16Run(c)
